@@ -203,6 +203,8 @@ def run(ctx, model):
     # object is the one of a terminal constructed with the new value
     import c08_cli
     c08_cli.reconfigure_equivalence(ctx, cov, ctx.pick(16, 80), must_change=["id_space", "fewer_diacritics"])
+    c08_cli.cli_equivalence(ctx, cov, ctx.pick(24, 80), env_rate=0.8)     # ... and the command line prints ids like the library call
+    c08_cli.cli_id_scenarios(ctx, cov)                                     # `display id:N`, also under a configuration for another id space
     return cov
 
 
